@@ -1,4 +1,4 @@
 SPECIFICATION Spec
-CONSTANTS K = 4  NP = 6  Continue = FALSE
+CONSTANTS K = 4  NP = 6  Continue = FALSE  AnyStart = FALSE
 CHECK_DEADLOCK FALSE
 INVARIANT IsPermutation
